@@ -9,6 +9,7 @@ import (
 	"hash/crc32"
 	"io"
 	"math"
+	"slices"
 	"sync"
 )
 
@@ -304,12 +305,7 @@ func DecodeEntryFrom(r io.Reader) (*Entry, uint32, error) {
 	entry.Meta = header.Meta
 	entry.ExpiresAt = header.ExpiresAt
 
-	if cap(entry.Key) < keyLen {
-		entry.Key = make([]byte, keyLen)
-	} else {
-		entry.Key = entry.Key[:keyLen]
-	}
-	if _, err := io.ReadFull(hashReader, entry.Key); err != nil {
+	if entry.Key, err = ReadFullGrowing(hashReader, entry.Key, keyLen); err != nil {
 		entry.DecrRef()
 		if errors.Is(err, io.EOF) || errors.Is(err, io.ErrUnexpectedEOF) {
 			return nil, 0, ErrPartialEntry
@@ -317,12 +313,7 @@ func DecodeEntryFrom(r io.Reader) (*Entry, uint32, error) {
 		return nil, 0, err
 	}
 
-	if cap(entry.Value) < valueLen {
-		entry.Value = make([]byte, valueLen)
-	} else {
-		entry.Value = entry.Value[:valueLen]
-	}
-	if _, err := io.ReadFull(hashReader, entry.Value); err != nil {
+	if entry.Value, err = ReadFullGrowing(hashReader, entry.Value, valueLen); err != nil {
 		entry.DecrRef()
 		if errors.Is(err, io.EOF) || errors.Is(err, io.ErrUnexpectedEOF) {
 			return nil, 0, ErrPartialEntry
@@ -345,6 +336,37 @@ func DecodeEntryFrom(r io.Reader) (*Entry, uint32, error) {
 
 	recordLen := uint32(headerBytes) + uint32(keyLen) + uint32(valueLen) + crc32.Size
 	return entry, recordLen, nil
+}
+
+// readGrowStep bounds how much ReadFullGrowing allocates ahead of the data it
+// has actually received.
+const readGrowStep = 64 << 10
+
+// ReadFullGrowing reads exactly n bytes from r into dst (reusing its capacity
+// when it suffices) and returns the filled slice. n usually comes from the
+// stream itself and is therefore untrusted: instead of allocating n bytes up
+// front, the buffer grows in bounded steps as data actually arrives, so a
+// corrupted length cannot force an allocation out of proportion to the input.
+func ReadFullGrowing(r io.Reader, dst []byte, n int) ([]byte, error) {
+	if n <= cap(dst) || n <= readGrowStep {
+		if n <= cap(dst) {
+			dst = dst[:n]
+		} else {
+			dst = make([]byte, n)
+		}
+		_, err := io.ReadFull(r, dst)
+		return dst, err
+	}
+	dst = dst[:0]
+	for len(dst) < n {
+		step := min(n-len(dst), readGrowStep)
+		off := len(dst)
+		dst = slices.Grow(dst, step)[:off+step]
+		if _, err := io.ReadFull(r, dst[off:]); err != nil {
+			return dst[:off], err
+		}
+	}
+	return dst, nil
 }
 
 // EstimateEncodeSize estimates the encoded size of an entry in the WAL/value log.
